@@ -3252,6 +3252,9 @@ class Group(System):
 
             meta['method'] = method
 
+            # drop the options of an earlier approx_totals call (e.g. the one made by check_totals)
+            for opt in ('step', 'form', 'step_calc'):
+                meta.pop(opt, None)
             meta.update(self._owns_approx_jac_meta)
 
             if wrt_matches is None or wrt in wrt_matches:
